@@ -187,3 +187,51 @@ Lemma charset_guard_as_modelled :
   [ (bs "autoDecodeResponseBody",
      bs "t.disableAutoDecode || res.Header.Get(""Content-Encoding"") != """"", bs "return") ].
 Proof. reflexivity. Qed.
+
+(* ---------- body wrappers ---------- *)
+
+(* a wrapped response is read exactly like the unwrapped one: every schedule, every stack *)
+Lemma wrapped_reads_alike dec sizes st c auto ended r :
+  drain dec sizes (open_resp (with_body (respond st c auto ended r) (wrap_body (r_body (respond st c auto ended r))))) =
+  drain dec sizes (open_resp (respond st c auto ended r)).
+Proof. unfold wrap_body, with_body, open_resp. cbn [r_short r_body]. reflexivity. Qed.
+
+(* the wrapper put in the decoder's place (NOT the code): the coded bytes under rewritten headers *)
+Lemma wrapper_replacing_decoder_refuted :
+  let r' := respond H1 (cfg_under s_off q_plain) false false r_gz in
+  r_ce r' = [] /\ r_unc r' = true /\
+  fst (drain id_codec0 [9; 9] (open_resp (with_body r' (wrap_replacing_decoder (r_body r'))))) =
+    (bs "zzzz", Some EOF) /\
+  open_resp (with_body r' (wrap_replacing_decoder (r_body r'))) = RPlain (bs "zzzz") /\
+  open_resp r' = RLazy Gzip (bs "zzzz").
+Proof. vm_compute. repeat split. Qed.
+
+(* read off the source: wrappers go below the decoder; and the three conditions `asked_gzip` transcribes -
+   any non-empty Range value, whatever its unit or spelling, stops the transport from asking *)
+Lemma wrappers_go_below_the_decoder :
+  wrap_response_body_cases =
+  [ (bs "wrapResponseBody", bs "*gzipReader", bs "b.body.body = wrap(b.body.body)");
+    (bs "wrapResponseBody", bs "compress.CompressReader", bs "b.SetUnderlyingBody(wrap(b.GetUnderlyingBody()))");
+    (bs "wrapResponseBody", bs "default", bs "res.Body = wrap(res.Body)") ].
+Proof. reflexivity. Qed.
+
+Lemma asked_gzip_conditions_as_modelled :
+  asked_gzip_conditions =
+  [ (bs "transport.go", bs "roundTrip",
+     bs "!pc.t.DisableCompression && req.Header.Get(""Accept-Encoding"") == """" && req.Header.Get(""Range"") == """" && req.Method != ""HEAD""");
+    (bs "internal/http2/transport.go", bs "roundTrip",
+     bs "!cc.t.DisableCompression && req.Header.Get(""Accept-Encoding"") == """" && req.Header.Get(""Range"") == """" && !cs.isHead");
+    (bs "internal/http3/http_stream.go", bs "SendRequestHeader",
+     bs "!s.DisableCompression && !s.disableCompression && req.Method != http.MethodHead && req.Header.Get(""Accept-Encoding"") == """" && req.Header.Get(""Range"") == """"") ].
+Proof. reflexivity. Qed.
+
+(* any Range value at all - whatever unit, letter case, spacing - and the transport does not ask, on
+   every stack; without AutoDecompression the response is then returned as received *)
+Lemma any_range_value_is_a_range_request st c auto ended r :
+  q_range c <> [] ->
+  asked_gzip st c = false /\ (auto = false -> respond st c auto ended r = r).
+Proof.
+  intros H. split.
+  - destruct (asked_gzip st c) eqn:E; [|reflexivity]. apply asked_gzip_iff in E. tauto.
+  - intros ->. apply otherwise_untouched. right. right. left. now split.
+Qed.
